@@ -25,6 +25,7 @@ type Program struct {
 	intrinsics         map[string]*Native
 	FuncsEncoded       map[string]bool
 	MergeFns           map[string]bool
+	Overrides          map[string]string // function -> harness function standing in for it
 }
 
 // LoadConfig describes what to load.
@@ -76,6 +77,7 @@ func Load(cfg LoadConfig) (*Program, error) {
 	}
 	p.intrinsics = buildIntrinsics()
 	p.MergeFns = map[string]bool{}
+	p.Overrides = map[string]string{}
 	return p, nil
 }
 
@@ -176,3 +178,7 @@ func (ip *Interp) Budget0() {
 }
 
 func repoFile(dir, rel string) string { return filepath.Join(dir, rel) }
+
+// ResetCaches is a hook for per-harness configuration changes (interpreters are created per run,
+// so nothing is cached across runs at the program level).
+func (p *Program) ResetCaches() {}
